@@ -12,8 +12,8 @@
                         ly_ctx_get_modules_hash
    quiescent s          executable: nothing pending (unres empty, no to_compile mark), every implemented module is
                         compiled against the current features and would compile again
-   keeps_latest R s o   executable: where the failing call jumps to its cleanup, every module that existed before still
-                        has its LYS_MOD_LATEST_REV bit;   keeps_features: ... still has its feature bits *)
+   keeps_features R s o executable: where the failing call jumps to its cleanup, every module that existed before still
+                        has its feature bits *)
 From LY Require Import Base Context ContextP.
 Local Open Scope N_scope.
 
@@ -22,28 +22,37 @@ Definition failed_op_restores_statement : Prop :=
   forall R s o s', reachable R s -> step R s o = (s', RErr) -> obs s' = obs s.
 
 (* It does not hold: the faithful model violates it, and so does the library (same scripts, driver t_ctx; each
-   witness was observed on the real code first). Witness: a@2001 is in the context; lys_parse of a@2002 whose import
-   is not found fails, and afterwards no revision of `a` is the latest one (ly_ctx_get_module_latest returns NULL):
-   lys_parse_in took LYS_MOD_LATEST_REV from a@2001 before the failure and the revert does not give it back. *)
+   witness was observed on the real code first). Witness: a {feature f1; feature f2 {if-feature f1;}} implemented
+   with f1; lys_set_implemented(a, {f2}) fails (LY_EDENIED) and leaves f1 off and f2 on: lys_set_features flipped the
+   bits in place and the revert does not know about them. *)
 Theorem C09_failed_op_restores_refuted : ~ failed_op_restores_statement.
 Proof. exact full_statement_refuted. Qed.
 Print Assumptions C09_failed_op_restores_refuted.
 
-(* What holds: from a quiescent state, a failing operation that does not take the latest-revision flag from an
-   existing module and does not change feature bits of an existing module leaves the observable state as it was,
-   whatever stage fails (syntax, import not found, duplicate definitions found after the imports were resolved,
-   another implemented revision, unknown feature, if-feature of an enabled feature, a node that does not compile,
-   leafref target, disabled list key), with or without LY_CTX_EXPLICIT_COMPILE. No reachability hypothesis is
-   needed: the three side conditions are executable. *)
+(* What holds: in a reachable quiescent state, a failing operation that does not change feature bits of an existing
+   module leaves the observable state as it was, whatever stage fails (syntax, import not found, duplicate definitions
+   found after the imports were resolved, another implemented revision, unknown feature, if-feature of an enabled
+   feature, a node that does not compile, leafref target, disabled list key), with or without LY_CTX_EXPLICIT_COMPILE.
+   The two side conditions are executable. Since /repo commit 21681e3 (the revert gives LYS_MOD_LATEST_REV back to the
+   newest remaining revision) no condition about the latest-revision flag is needed: reachability gives the invariant
+   that exactly the newest revision of every name carries the flag (ContextP.reachable_LJ), and the revert restores it. *)
 Theorem C09_failed_op_restores_partial : forall R s o s',
-  quiescent s = true -> keeps_latest R s o = true -> keeps_features R s o = true ->
+  reachable R s -> quiescent s = true -> keeps_features R s o = true ->
   step R s o = (s', RErr) -> obs s' = obs s.
-Proof. exact failed_restores. Qed.
+Proof. exact failed_restores_reachable. Qed.
 Print Assumptions C09_failed_op_restores_partial.
 
-(* Each of the three side conditions is necessary: a reachable witness that violates only that one (the other two
-   hold) and is not restored.
-   latest:   the witness above.
+(* Regression of the defect fixed by 21681e3: a@2001 is in the context; lys_parse of a@2002 whose import is not found
+   fails; at the cleanup jump a@2001 has lost LYS_MOD_LATEST_REV (lys_parse_in took it), and after the revert the
+   observable (ly_ctx_get_module_latest included) is what it was. *)
+Theorem C09_latest_flag_given_back :
+  reachable w1_R w1_s /\ snd (step w1_R w1_s w1_o) = RErr /\
+  option_map m_latest (find_mod (0, 1) (mods (step_mid w1_R w1_s w1_o))) = Some false /\
+  obs (fst (step w1_R w1_s w1_o)) = obs w1_s.
+Proof. exact latest_flag_given_back. Qed.
+Print Assumptions C09_latest_flag_given_back.
+
+(* Each of the two side conditions is necessary: a reachable witness that violates only that one and is not restored.
    features: a {feature f1; feature f2 {if-feature f1;}} implemented with f1; lys_set_implemented(a, {f2}) fails
              (LY_EDENIED) and leaves f1 off, f2 on, to_compile set; the later load of a correct module importing a
              fails although it succeeds without the failed call.
@@ -52,15 +61,13 @@ Print Assumptions C09_failed_op_restores_partial.
    quiescent: LY_CTX_EXPLICIT_COMPILE, b parsed successfully but not compiled yet; the failed parse of c (syntax
              error) removes b from the context. *)
 Theorem C09_side_conditions_necessary :
-  (exists R s o, reachable R s /\ quiescent s = true /\ keeps_features R s o = true /\ keeps_latest R s o = false /\
-                 snd (step R s o) = RErr /\ obs (fst (step R s o)) <> obs s) /\
-  (exists R s o, reachable R s /\ quiescent s = true /\ keeps_latest R s o = true /\ keeps_features R s o = false /\
+  (exists R s o, reachable R s /\ quiescent s = true /\ keeps_features R s o = false /\
                  snd (step R s o) = RErr /\ obs (fst (step R s o)) <> obs s /\
                  exists o2, snd (step R (fst (step R s o)) o2) = RErr /\ snd (step R s o2) = ROk) /\
-  (exists R s o, reachable R s /\ quiescent s = true /\ keeps_latest R s o = true /\ keeps_features R s o = false /\
+  (exists R s o, reachable R s /\ quiescent s = true /\ keeps_features R s o = false /\
                  snd (step R s o) = RErr /\ obs (fst (step R s o)) <> obs s /\
                  option_map m_impl (find_mod (0, 1) (mods s)) = Some false) /\
-  (exists R s o, reachable R s /\ quiescent s = false /\ keeps_latest R s o = true /\ keeps_features R s o = true /\
+  (exists R s o, reachable R s /\ quiescent s = false /\ keeps_features R s o = true /\
                  snd (step R s o) = RErr /\ obs (fst (step R s o)) <> obs s).
 Proof. exact side_conditions_necessary. Qed.
 Print Assumptions C09_side_conditions_necessary.
@@ -69,24 +76,24 @@ Print Assumptions C09_side_conditions_necessary.
    ten failing operations, one per fault kind (leafref without target, import not found, duplicate feature after the
    imports were resolved, if-feature of an enabled feature not satisfied, node that does not compile, disabled list
    key, syntax error, module nobody has, unknown feature on an implemented module, unknown feature on a module that
-   is parsed again) satisfy all three and return an error. *)
+   is parsed again) satisfy them and return an error. *)
 Example C09_hypotheses_satisfiable :
   reachable w7_R w7_s /\ quiescent w7_s = true /\
-  forallb (fun o => keeps_latest w7_R w7_s o && keeps_features w7_R w7_s o &&
+  forallb (fun o => keeps_features w7_R w7_s o &&
                     match snd (step w7_R w7_s o) with RErr => true | _ => false end) w7_ops = true.
 Proof. exact hypotheses_satisfiable. Qed.
 
-(* Fault kinds that restore unconditionally (from a quiescent state): a syntax error in the module text ... *)
+(* Fault kinds that restore unconditionally (from a reachable quiescent state): a syntax error in the module text ... *)
 Theorem C09_syntax_fault_restores : forall R s d sel s' r,
-  quiescent s = true -> d_fault d = 1 -> step R s (OpParse d sel) = (s', r) -> r = RErr /\ obs s' = obs s.
-Proof. exact syntax_fault_restores. Qed.
+  reachable R s -> quiescent s = true -> d_fault d = 1 -> step R s (OpParse d sel) = (s', r) -> r = RErr /\ obs s' = obs s.
+Proof. exact syntax_fault_restores_reachable. Qed.
 Print Assumptions C09_syntax_fault_restores.
 
 (* ... and lys_set_implemented(m, NULL): whatever makes implementing a module without touching its features fail
    (another revision is implemented, a node that does not compile, a leafref without target, a disabled list key). *)
 Theorem C09_failed_implement_restores : forall R s name rev s',
-  quiescent s = true -> step R s (OpImpl name rev FNull) = (s', RErr) -> obs s' = obs s.
-Proof. exact failed_implement_restores. Qed.
+  reachable R s -> quiescent s = true -> step R s (OpImpl name rev FNull) = (s', RErr) -> obs s' = obs s.
+Proof. exact failed_implement_restores_reachable. Qed.
 Print Assumptions C09_failed_implement_restores.
 
 (* ly_ctx_compile() with nothing pending does not fail and compiles nothing. *)
